@@ -1,0 +1,12 @@
+//go:build !verif
+
+// Package verifhook provides instrumentation points for the external verification harness.
+// With the "verif" build tag the points call handlers the harness installs; without it
+// every function is empty.
+package verifhook
+
+// Crash marks a point before or after a file-system mutation; a no-op in this build.
+func Crash(site, path string) {}
+
+// Yield marks a scheduling point; a no-op in this build.
+func Yield(point string) {}
